@@ -821,3 +821,7 @@ def sample_view(sc, r):
         return {k: sc.get(k) for k in ("reader", "timeout", "pre", "wait", "status", "close_timeout", "script", "reaction", "policy", "peer_close_at")}
     return {"steps": sc["steps"], "peer_script": [{k: v for k, v in it.items()} for it in sc.get("script", ())],
             "reaction": sc.get("reaction"), "socket_timeout_ticks": sc.get("timeout"), "send_fault": sc.get("send_fault"), "send_stall": sc.get("send_stall")}
+
+
+# round 7 summary for the evidence file
+RULE = RULE + "  Round 7: reasons are given as bytes, str, or str with 2-/3-/4-byte characters (expected payload = status || UTF-8 of the reason); 'nonblocking' histories - settimeout(0) after the handshake, the caller polls - enumerated for end of stream / reset x earlier steps and in 10 % of the seeded histories: a loss found by a polling receive call is a loss all the same."
